@@ -140,6 +140,10 @@ pub enum LenMode {
     Minus1,
     Plus1,
     Max,
+    /// honest on the first call of len(), one less on every later call: the answer changes although nothing was consumed
+    FlipDown,
+    /// honest on the first call, one more afterwards
+    FlipUp,
 }
 
 /// The element iterator handed to insert_row / insert_col: exact-size, double-ended, with
@@ -147,11 +151,12 @@ pub enum LenMode {
 pub struct Feed<T> {
     inner: std::vec::IntoIter<T>,
     mode: LenMode,
+    len_calls: std::cell::Cell<u32>,
 }
 
 impl<T> Feed<T> {
     pub fn new(items: Vec<T>, mode: LenMode) -> Feed<T> {
-        Feed { inner: items.into_iter(), mode }
+        Feed { inner: items.into_iter(), mode, len_calls: std::cell::Cell::new(0) }
     }
     fn reported(&self) -> usize {
         let n = self.inner.len();
@@ -160,6 +165,8 @@ impl<T> Feed<T> {
             LenMode::Minus1 => n.saturating_sub(1),
             LenMode::Plus1 => n + 1,
             LenMode::Max => usize::MAX,
+            LenMode::FlipDown => if self.len_calls.get() <= 1 { n } else { n.saturating_sub(1) },
+            LenMode::FlipUp => if self.len_calls.get() <= 1 { n } else { n + 1 },
         }
     }
 }
@@ -193,6 +200,7 @@ impl<T> DoubleEndedIterator for Feed<T> {
 impl<T> ExactSizeIterator for Feed<T> {
     fn len(&self) -> usize {
         fault::tick(Site::IterLen);
+        self.len_calls.set(self.len_calls.get() + 1);
         self.reported()
     }
 }
